@@ -225,8 +225,8 @@ class C18(props.BaseProp):
 
 P = props.register(C18())
 P.manifest = {
-    "text": "Unbounded theorems for ANY number structure satisfying ordered-field-with-sqrt laws (record Laws; closed under the global context), about the transcribed power iteration: multi-edge graphs are refused with WrongMethod (F14 repaired); the only errors are WrongMethod / PowerIterationFailedConvergence; Ok is returned only from a pass whose L1 test against n*tol succeeded and never when no pass within max_iter meets it; the returned x = normalise(xlast + A^T xlast) with ||x - xlast||_1 < n*tol; one entry per node (keys = node names); all entries >= 0 and sum of squares = 1 when the stored weights are >= 0. The laws are instantiated with Coq's reals (non-vacuity example: one-node graph converges).",
-    "note": "Chosen route for sqrt: the model is polymorphic in a Num record; it is EXECUTED on Coq primitive binary64 floats for the correspondence (no theorem mentions that instance) and PROVED for any lawful instance. Stretch not proved: explicit bound on ||T x - x||_1 (checked on the implementation's output by the oracle with L = 2 sqrt(n) ||I+A^T||_F) and 'spread = x + A^T x' in matrix form (oracle recomputes it from the edge list). Outcome comparison is skipped only when a decisive L1 value is within 1e-9 relative of the threshold (counted in the evidence). Axioms: none for the generic theorems; the R instance (C18_unit_norm_real, C18_real_instance_nonvacuous) uses ClassicalDedekindReals.sig_forall_dec, sig_not_dec and FunctionalExtensionality.functional_extensionality_dep (stdlib Reals).",
+    "text": "Unbounded theorems for ANY number structure satisfying ordered-field-with-sqrt laws (record Laws; closed under the global context), about the transcribed power iteration: multi-edge graphs are refused with WrongMethod (F14 repaired); the only errors are WrongMethod / PowerIterationFailedConvergence; Ok is returned only from a pass whose L1 test against n*tol succeeded and never when no pass within max_iter meets it; one entry per node (keys = node names in node order); all entries >= 0 and sum of squares = 1 when the stored weights are >= 0. Since round 2 (deep7), for every graph satisfying the proved coherence invariant WF (hence every graph reachable by any history of mutations / built by new_from_nodes_and_edges; corollaries C18_result_reachable, C18_result_new_from, C18_approx_eigenvector_reachable, C18_next_step_bound_reachable): (a) C18_update_is_matrix_form - the accumulation loop never panics, keeps the keys and computes exactly x1[v] = xlast[v] + SUM over the stored edges e of get_all_edges with ev e = v, or (undirected) eu e = v, a self-loop once, of xlast[other end] * w(e) (w = 1 when unweighted or NaN), for xlast indexed by the node names in ANY order; also in node-indexed form xlast[v] + SUM_u xlast[u]*A[u][v] with A[u][v] the weight of the single stored edge between u and v (C18_update_is_matrix_form_entries, C18_matrix_entry_from_store, symmetric when undirected), as one vector equation spread = (I + A^T) x (C18_update_is_matvec) and, with no law of arithmetic at all, in key order (C18_update_in_key_order); generic Num, only the four SumLaws (+ commutative, associative, a+0 = a, a*0 = 0). Hence C18_approx_eigenvector: the returned x = normalise((I + A^T) xlast), A from the edge store, ||x - xlast||_1 < n*tol. The hypotheses 'keys = node names' and 'stored weights >= 0' (phrased on the private index store) are discharged from WF and a premise over get_all_edges (C18_weights_nonneg_from_edge_list, C18_initial_keys_WF, C18_result_WF). (b) At Coq's reals: C18_next_step_bound - for the returned x one further pass of the very loop (step) does not panic and measures an L1 change ||normalise((I+A^T)x) - x||_1 < L*n*tol with the explicit constant L = (n+1)*(1+Wtot), Wtot = SUM_{u,v} A[u][v]; C18_eigen_residual_bound - ||(I+A^T)x - lambda x||_1 < (1+Wtot)*n*tol with lambda = ||(I+A^T)xlast||_2 > 0. Non-vacuity at R: the one-node graph, and an undirected weighted 3-node graph with a self-loop built by a history (C18_weighted_example_*: result (2,6,9)/11, A = [[0,1,0],[1,0,4],[0,4,4]], Wtot = 14).",
+    "note": "Chosen route for sqrt: the model is polymorphic in a Num record; it is EXECUTED on Coq primitive binary64 floats for the correspondence (no theorem mentions that instance) and PROVED for any lawful instance. The two former stretch items are now theorems: 'spread = x + A^T x' in matrix form over the edge store (generic Num + SumLaws, closed under the global context) and the explicit next-step bound (at R only; the constant L = (n+1)(1+Wtot) is cruder than the oracle's 2 sqrt(n) ||I+A^T||_F, which the oracle still checks on the implementation's output; the proof avoids Cauchy-Schwarz by bounding | ||Mx||_2 - lambda | <= ||Mx - lambda x||_1 entrywise). Not proved: the next-step bound for an abstract ordered field (the Laws record has no absolute-value/order-compatibility laws) and nothing about binary64 rounding. Remaining hypotheses: WF g (proved for every reachable state, C01) and 'forall e in get_all_edges g, weight >= 0 or NaN' (an input condition of the property). Outcome comparison is skipped only when a decisive L1 value is within 1e-9 relative of the threshold (counted in the evidence). Axioms: none for the generic theorems (23 of 32 pins closed); the R instance (C18_unit_norm_real, C18_real_instance_nonvacuous, C18_eigen_residual_bound, C18_next_step_bound(_reachable), C18_weighted_example_*) uses ClassicalDedekindReals.sig_forall_dec, sig_not_dec and FunctionalExtensionality.functional_extensionality_dep (stdlib Reals).",
     "technique": "Coq proof over an abstract ordered field with sqrt (instantiated with R) + differential "
                  "correspondence vs the same model executed on Coq primitive floats + property oracle on the "
                  "implementation",
